@@ -264,7 +264,14 @@ func c02Channel(status ChannelStatus, maxHtlcs int) *c02World {
 		ch.FundingTxn = c02Tx(1)
 	}
 	ch.LocalCommitment = *c02Commit(maxHtlcs)
-	ch.RemoteCommitment = *c02Commit(0)
+	if _, pinned := c02Pins["commitShape"]; !pinned && !c02DeepCommit {
+		// the remote commitment takes the other shape
+		c02Pins = map[string]int{"commitShape": 1 - c02LastShape}
+		ch.RemoteCommitment = *c02Commit(0)
+		c02Pins = nil
+	} else {
+		ch.RemoteCommitment = *c02Commit(0)
+	}
 
 	// revocation state: symbolic root, one symbolic bucket in the secret store
 	w.raw = append([]byte{1}, vBytes("bucketIndex", 8)...)
